@@ -234,7 +234,7 @@ class Executor:
         if k == 'float':
             return 0.0
         if k == 'struct':
-            return [self.zero(f['t']) for f in t['fields']]
+            return [self.zero(f['t']) for f in (t['fields'] or [])]
         if k == 'array':
             n = t['len']
             z = self.zero(t['elem'])
